@@ -2,7 +2,7 @@
    the project state is characterised by the disk (Proofs/EventsRefine.v good_proj), the saved map is the project's
    error collection, and the client view of every file is exactly what the property demands. *)
 From Coq Require Import List NArith Bool Lia Permutation Sorted.
-From LH Require Import Model.Diag Model.Events Spec.FreshStart Proofs.DiagProofs Proofs.EventsSets Proofs.EventsRefine.
+From LH Require Import Model.Diag Model.Events Spec.FreshStart Proofs.DiagProofs Proofs.EventsSets Proofs.EventsRefine Proofs.EventsTracks.
 Import ListNotations.
 Local Open Scope N_scope.
 
@@ -322,5 +322,106 @@ Section Inv.
           destruct (fix12b fx && ahas (saved (ds (sv w))) f); [reflexivity|exact Iv2].
       + rewrite andb_false_r. cbn [andb]. rewrite fmem_frem_other; [exact Iv|].
         intros ->. rewrite N.eqb_refl in E. discriminate.
+  Qed.
+
+  (* ---------- what the two pushAll classes give for one file ---------- *)
+  Lemma class_conds w w' g :
+    k_live_cleared A fx w w' = false -> k_unhidden A w w' = false ->
+    fmem g (dirty w) = true -> fmem g (dirty w') = true ->
+    (aget (live (ds (sv w))) g <> None -> live_has A w' g = true) ->
+    (aget (live (ds (sv w))) g <> None ->
+       is_nil (saved (ds (sv w'))) || fix12a fx = true \/ saved_of A w g = saved_of A w' g) /\
+    (aget (live (ds (sv w))) g = None -> saved_of A w g = saved_of A w' g \/ has_syn (saved_of A w' g) = false).
+  Proof.
+    intros Hlc Hun Hd Hd' Hlive. split.
+    - intros Hl. unfold k_live_cleared in Hlc.
+      destruct (fix12a fx); [left; apply orb_true_r|]. destruct (is_nil (saved (ds (sv w')))); [left; reflexivity|].
+      cbn [negb andb] in Hlc. right.
+      destruct (errs_eqb (saved_of A w g) (saved_of A w' g)) eqn:E; [apply errs_eqb_eq; exact E|]. exfalso.
+      assert (existsb (fun f => live_has A w' f && negb (errs_eqb (saved_of A w f) (saved_of A w' f))) (akeys (live (ds (sv w)))) = true);
+        [|congruence].
+      apply existsb_exists. exists g. split; [apply aget_in_keys; exact Hl|]. rewrite (Hlive Hl), E. reflexivity.
+    - intros Hl. unfold k_unhidden in Hun.
+      destruct (errs_eqb (saved_of A w g) (saved_of A w' g)) eqn:E; [left; apply errs_eqb_eq; exact E|].
+      destruct (has_syn (saved_of A w' g)) eqn:Es; [|right; reflexivity]. exfalso.
+      assert (existsb (fun f => fmem f (dirty w') && negb (live_has A w f) && negb (errs_eqb (saved_of A w f) (saved_of A w' f)) &&
+                                has_syn (saved_of A w' f)) (dirty w) = true); [|congruence].
+      apply existsb_exists. exists g. split; [apply fmem_in; exact Hd|]. rewrite Hd', E, Es. unfold live_has, ahas. rewrite Hl. reflexivity.
+  Qed.
+
+  (* ---------- didSave ---------- *)
+  Lemma did_save_eq dk (s : server A) f t :
+    did_save A fx dk s f t =
+    let pc := handle_events A fx dk (pj s) [(f, KChanged)] in
+    let d1 := if snd pc then fst (push_all_again (fix12a fx) (ds s) (all_errs A (fst pc))) else ds s in
+    let ps1 := if snd pc then snd (push_all_again (fix12a fx) (ds s) (all_errs A (fst pc))) else [] in
+    ({| pj := fst pc; cache := aset (cache s) f t; ds := fst (save_push_again d1 f) |}, ps1 ++ snd (save_push_again d1 f)).
+  Proof.
+    unfold did_save. cbn [pj cache ds]. destruct (handle_events A fx dk (pj s) [(f, KChanged)]) as [p1 chg]. cbn [fst snd].
+    destruct chg.
+    - rewrite push_again_eq. cbn [ds pj cache]. destruct (save_push_again _ f). reflexivity.
+    - cbn [ds pj cache]. destruct (save_push_again (ds s) f). reflexivity.
+  Qed.
+
+  Lemma act_save_inv w v f :
+    inv w v -> in_dir A f = true -> conf_action A w (ASave f) = true ->
+    let w' := fst (act A fx w (ASave f)) in
+    k_live_cleared A fx w w' = false -> k_unhidden A w w' = false -> k_stale_ref A w' = false ->
+    k_empty_shortcut A fx w (ASave f) = false ->
+    inv w' (vapply v (snd (act A fx w (ASave f)))).
+  Proof.
+    intros I Hd Hconf. cbn zeta. cbn [act]. destruct (aget (ebuf w) f) as [t|] eqn:Eb; [|intros; exact I].
+    unfold conf_action, conf_action_full, ahas in Hconf. rewrite Eb in Hconf. cbn [negb orb andb] in Hconf.
+    rewrite orb_false_r, andb_true_r in Hconf.
+    assert (Hpres : aget (disk w) f <> None) by (destruct (aget (disk w) f); [discriminate|discriminate]).
+    unfold steps. cbn [fold_left fst snd step set_editor disk sv ebuf dirty app].
+    rewrite did_save_eq. cbn zeta.
+    unfold k_empty_shortcut. rewrite Eb. unfold empty_hit.
+    set (p := pj (sv w)). set (dk := aset (disk w) f t).
+    set (pc := handle_events A fx dk p [(f, KChanged)]).
+    set (new := all_errs A (fst pc)).
+    set (d1 := if snd pc then fst (push_all_again (fix12a fx) (ds (sv w)) new) else ds (sv w)).
+    set (ps1 := if snd pc then snd (push_all_again (fix12a fx) (ds (sv w)) new) else []).
+    cbn [fst snd].
+    set (w' := {| disk := dk; sv := {| pj := fst pc; cache := aset (cache (sv w)) f t; ds := fst (save_push_again d1 f) |};
+                  ebuf := ebuf w; dirty := frem f (dirty w) |}).
+    intros Hlc Hun Hst Hemp.
+    pose proof (he_changed A fx HA (disk w) p f t (i_good _ _ I) Hd Hpres Hemp) as HE. cbn zeta in HE. fold dk pc in HE.
+    destruct HE as [HE1 HE2].
+    assert (Hgood : good_proj A dk (fst pc)) by (apply HE1; apply (stale_ref_false w'); exact Hst).
+    assert (Hsaved1 : saved d1 = if snd pc then new else saved (ds (sv w))) by (unfold d1; destruct (snd pc); reflexivity).
+    assert (Hlive1 : live d1 = live (ds (sv w))) by (unfold d1; destruct (snd pc); reflexivity).
+    assert (Hs1 : forall g, vget (saved d1) g = errs_of A (fst pc) g).
+    { intros g. rewrite Hsaved1. destruct (snd pc) eqn:Ec; [apply vget_all_errs|]. rewrite (i_saved _ _ I). symmetry. apply HE2. reflexivity. }
+    pose proof (i_view _ _ I) as Iv.
+    assert (Hsaved_w' : forall g, saved_of A w' g = vget (saved d1) g) by reflexivity.
+    constructor; cbn [w' disk sv pj ds cache ebuf dirty].
+    - exact Hgood.
+    - intros g. unfold save_push_again. cbn [fst saved]. apply Hs1.
+    - unfold save_push_again. cbn [fst saved]. rewrite Hsaved1. destruct (snd pc); [apply all_errs_nonempty|apply (i_saved_ne _ _ I)].
+    - intros g. rewrite aget_aset, (i_cache _ _ I). destruct (f =? g) eqn:E; [|reflexivity]. apply N.eqb_eq in E. subst g. symmetry. exact Eb.
+    - intros g Hg. apply frem_in in Hg. apply (i_open _ _ I). tauto.
+    - intros g. rewrite save_push_again_live, vapply_app, save_push_again_view. unfold save_push_again at 1. cbn [fst saved].
+      destruct (f =? g) eqn:E.
+      + apply N.eqb_eq in E. subst g. rewrite fmem_frem_same. cbn [file_ok]. auto.
+      + assert (Hne : g <> f) by (intros ->; rewrite N.eqb_refl in E; discriminate).
+        rewrite (fmem_frem_other g f _ Hne). rewrite Hlive1. change (syn_of w' g) with (syn_of w g).
+        specialize (Iv g). unfold ps1. destruct (snd pc) eqn:Ec.
+        * assert (Hd1 : d1 = fst (push_all_again (fix12a fx) (ds (sv w)) new)) by (unfold d1; rewrite Ec; reflexivity).
+          rewrite Hsaved1.
+          apply push_all_file_ok; [exact Iv|apply (i_saved_ne _ _ I)|apply all_errs_nonempty| |].
+          -- intros Hdty Hl.
+             destruct (class_conds w w' g Hlc Hun Hdty) as [C1 _].
+             { cbn [w' dirty]. rewrite (fmem_frem_other g f _ Hne). exact Hdty. }
+             { intros _. unfold live_has, ahas. cbn [w' sv ds]. rewrite save_push_again_live, E, Hlive1.
+               destruct (aget (live (ds (sv w))) g); [reflexivity|contradiction]. }
+             specialize (C1 Hl). rewrite Hsaved_w' in C1. cbn [w' sv ds] in C1. unfold save_push_again in C1. cbn [fst saved] in C1.
+             rewrite Hsaved1 in C1. exact C1.
+          -- intros Hdty Hl.
+             destruct (class_conds w w' g Hlc Hun Hdty) as [_ C2].
+             { cbn [w' dirty]. rewrite (fmem_frem_other g f _ Hne). exact Hdty. }
+             { intros Hx. contradiction. }
+             specialize (C2 Hl). rewrite !Hsaved_w' in C2. rewrite Hsaved1 in C2. exact C2.
+        * cbn [vapply fold_left]. rewrite Hsaved1. exact Iv.
   Qed.
 End Inv.
